@@ -159,7 +159,8 @@ def replay_case(case, tag, rng, tier):
         out["cls"] = "promotion"
         for trip, want in case["promotion"]:
             vals = [CONV[t](i + 1) for i, t in enumerate(trip)]
-            for nm, ctor in (("Vector", lambda: Vector(*vals)), ("Point", lambda: Point(*vals)), ("Vector_list", lambda: Vector(list(vals)))):
+            for nm, ctor in (("Vector", lambda: Vector(*vals)), ("Point", lambda: Point(*vals)), ("Vector_list", lambda: Vector(list(vals))),
+                             ("Point_list", lambda: Point(list(vals))), ("Point_tuple", lambda: Point(tuple(vals)))):
                 v, exc = call(ctor)
                 out["calls"] += 1
                 comps = None if exc is not None else [v[0], v[1], v[2]]
